@@ -137,6 +137,10 @@ func ParseFlags(params []string, args *Arguments) (*FlagsT, []string, error) {
 		i           int
 	)
 
+	// aliases are resolved in place (below) so work on a copy: the caller's slice
+	// may be a process's live parameter list, which other goroutines read
+	params = append([]string{}, params...)
+
 	for i = range params {
 	scanFlags:
 		switch {
